@@ -325,7 +325,7 @@ func c17Families(tier string) []explore.Family {
 	}})
 	// round to 0..4 places on fine binary fractions (k/64 for k in -64..192: exact operands whose digits straddle
 	// every rounding position) and on decimal spellings k/1000 (inexact operands): the result is the exact value of
-	// the float rounded half up, unless that exact value lies within 1e-9 of a tie (float noise may decide there)
+	// the float rounded half up, unless that exact value lies within a few ulps of a tie (float noise of the scaling may decide there)
 	var fine []float64
 	for k := -64; k <= 192; k++ {
 		fine = append(fine, float64(k)/64)
@@ -334,6 +334,13 @@ func c17Families(tier string) []explore.Family {
 		fine = append(fine, float64(k)/1000)
 	}
 	fine = append(fine, 19.9949, 19.995, 2.675, 1.005, 0.285, 1234.5678, 0.0449, 0.045, 99.995, 0.3, 1e-7, 123456.789)
+	// just below and just above a tie, by much more than float noise (1e-10, 1e-7, 2^-40) and by one ulp
+	for _, base := range []float64{0.5, 1.5, 2.5, 10.5, 0.25, 0.125, 0.05, 0.005, 1.005, 7.45, 1000.5} {
+		for _, eps := range []float64{1e-10, 1e-7, 1.0 / (1 << 40)} {
+			fine = append(fine, base-eps, base+eps)
+		}
+		fine = append(fine, math.Nextafter(base, 0), math.Nextafter(base, 2*base))
+	}
 	fams = append(fams, explore.Family{Name: "round-fine-fractions", Count: int64(len(fine) * 5 * 2), Run: func(i int64, r *explore.Rec) {
 		rx := radix{i}
 		neg, p, x := rx.next(2) == 1, int64(rx.next(5)), fine[rx.next(len(fine))]
@@ -352,7 +359,9 @@ func c17Families(tier string) []explore.Family {
 		r.Transition()
 		r.Trace()
 		o := Render(c17.eng, src, map[string]any{"a": x})
-		if d.Sign() != 0 && d.Cmp(big.NewRat(1, 1e9)) < 0 {
+		// float noise of computing x*10^p is a few ulps of the product: only THAT close to a tie is the outcome open
+		noise := new(big.Rat).Mul(new(big.Rat).Abs(sx), big.NewRat(1, 1<<48))
+		if d.Sign() != 0 && d.Cmp(noise) < 0 {
 			r.Class("round-fine/near-tie-unspecified")
 			return
 		}
